@@ -28,7 +28,13 @@ import warnings
 from collections import Counter
 from pathlib import Path
 
-STUCK_AFTER = 6.0     # seconds without the predecessor finishing: the schedule cannot be followed
+STUCK_AFTER = 10.0    # seconds without the predecessor finishing: the schedule cannot be followed
+STUCK_SEEN = 0        # once two cases got stuck the implementation is known to deviate: wait only briefly
+
+
+def stuck_limit():
+    return STUCK_AFTER if STUCK_SEEN < 2 else 0.5
+
 T0 = dt.datetime(2018, 1, 1)
 TEMPLATE = "{year}{month}{day}-f{id}.dat"
 
@@ -37,6 +43,10 @@ class ReadErr(IOError):
     def __init__(self, code):
         super().__init__(code)
         self.code = code
+
+
+class SkipCase(Exception):
+    """The case relies on find()/match() delivering a planned selection and they did not (C01/C03)."""
 
 
 class FuncErr(RuntimeError):
@@ -148,7 +158,7 @@ class Recorder:
         if p is None:
             return
         ev = self.done_evt[p]
-        t_end = time.time() + STUCK_AFTER
+        t_end = time.time() + stuck_limit()
         while not ev.wait(0.02):
             if self.abort.is_set():
                 return
@@ -241,9 +251,15 @@ def make_pool_class(base):
         def submit(self, fn, *args, **kwargs):
             key = None
             try:
-                if threading.get_ident() == CUR.consumer and getattr(fn, "__name__", "") == "_call_map_function":
-                    a = args[0]
-                    key = _key_of_info(a[0].name, a[1])
+                if threading.get_ident() == CUR.consumer:
+                    if getattr(fn, "__name__", "") == "_call_map_function":
+                        a = args[0]
+                        key = _key_of_info(a[0].name, a[1])
+                    elif getattr(getattr(fn, "func", None), "__name__", "") == "_process_chunk" \
+                            and getattr(fn.args[0], "__name__", "") == "_call_map_function" and len(args[0]) == 1:
+                        # ProcessPoolExecutor.map wraps the call into chunks (chunksize 1)
+                        a = args[0][0][0]
+                        key = _key_of_info(a[0].name, a[1])
             except Exception:   # noqa
                 key = None
             if key is not None:
@@ -311,7 +327,11 @@ def stream_infos(case, name, fs):
         return None, {}, by_pos
     if sel == "period":
         a, b = spec["period"]
-        return None, {"start": T0 + dt.timedelta(days=a), "end": T0 + dt.timedelta(days=b)}, by_pos
+        kw = {"start": T0 + dt.timedelta(days=a), "end": T0 + dt.timedelta(days=b)}
+        got = [[case["_pos_of_path"][f.path]] for f in fs.find(**kw)]
+        if got != stream:
+            raise SkipCase(f"find({a},{b}) gave {got}, planned {stream}")
+        return None, kw, by_pos
     files = []
     for bundle in stream:
         if sel == "bundles":
@@ -361,10 +381,13 @@ def run_case(case, root, new_recorder=Recorder):
     try:
         with warnings.catch_warnings(record=True) as wlist:
             warnings.simplefilter("always")
-            if case["api"] == "align":
-                _run_align(case, obs, FileSet, FileHandler)
-            else:
-                _run_map_like(case, obs, FileSet, FileHandler)
+            try:
+                if case["api"] == "align":
+                    _run_align(case, obs, FileSet, FileHandler)
+                else:
+                    _run_map_like(case, obs, FileSet, FileHandler)
+            except SkipCase as e:
+                obs["skipped"] = str(e)
             obs["warnings"] = sum(1 for x in wlist if issubclass(x.category, RuntimeWarning)
                                   and "Could not read" in str(x.message))
     finally:
@@ -374,6 +397,9 @@ def run_case(case, root, new_recorder=Recorder):
             shutil.rmtree(d, ignore_errors=True)
     obs["events"] = [list(e) for e in CUR.events]
     obs["stuck"] = list(CUR.stuck)
+    if obs["stuck"]:
+        global STUCK_SEEN
+        STUCK_SEEN += 1
     obs["func_calls"] = {f"{k[0]}:{k[1]}": v for k, v in dict(CUR.func_calls).items()}
     obs["read_calls"] = {f"{k[0]}:{k[1]}": v for k, v in dict(CUR.read_calls).items()}
     for k in [k for k in case if k.startswith("_")]:
@@ -463,7 +489,12 @@ def _run_align(case, obs, FileSet, FileHandler):
         # stream of p = the primaries of the matches in order; stream of s = unique secondaries
         kw["matches"] = [(p_by[pp], [s_by[x] for x in secs]) for pp, secs in case["matches"]]
     else:
-        kw.update(start=T0, end=T0 + dt.timedelta(days=400), max_interval=case.get("max_interval"))
+        mi = dt.timedelta(hours=case["max_interval_h"]) if case.get("max_interval_h") else None
+        kw.update(start=T0, end=T0 + dt.timedelta(days=400), max_interval=mi)
+        got = [[case["_pos_of_path"][a.path], [case["_pos_of_path"][x.path] for x in bs]]
+               for a, bs in p.match(s, kw["start"], kw["end"], max_interval=mi)]
+        if got != [[a, list(bs)] for a, bs in case["planned_matches"]]:
+            raise SkipCase(f"match() gave {got}")
     obs["deliv"] = []
     try:
         for prim, sec in p.align(s, **kw):
@@ -519,7 +550,7 @@ class ManagerRecorder(Recorder):
         if p is None:
             return
         ev = self.done_evt[p]
-        t_end = time.time() + STUCK_AFTER
+        t_end = time.time() + stuck_limit()
         while not ev.wait(0.05):
             if self.abort.is_set():
                 return
@@ -551,7 +582,10 @@ def run_case_with_sync(case, root, new, holder):
     try:
         with warnings.catch_warnings(record=True):
             warnings.simplefilter("always")
-            _run_map_like(case, obs, FileSet, FileHandler)
+            try:
+                _run_map_like(case, obs, FileSet, FileHandler)
+            except SkipCase as e:
+                obs["skipped"] = str(e)
             obs["warnings"] = None      # warnings are raised inside the worker processes
     finally:
         CUR.abort.set()
@@ -561,6 +595,9 @@ def run_case_with_sync(case, root, new, holder):
     CUR.collect_back()
     obs["events"] = [list(e) for e in CUR.events]
     obs["stuck"] = list(CUR.stuck)
+    if obs["stuck"]:
+        global STUCK_SEEN
+        STUCK_SEEN += 1
     obs["func_calls"] = {f"{k[0]}:{k[1]}": v for k, v in dict(CUR.func_calls).items()}
     obs["read_calls"] = {f"{k[0]}:{k[1]}": v for k, v in dict(CUR.read_calls).items()}
     for k in [k for k in case if k.startswith("_")]:
